@@ -24,7 +24,8 @@ RULE = ('decoded WF-T graphs (carrying markers and alignments) and hand-built WF
         'seeds} x attributes_first in {False, True} x a new top; roles include :op1/:op2/:op10, '
         ':ARG0-of, aligned roles and aligned re-entrancies; models default, AMR, mini-AMR, random '
         'tables (deinverting models only). Sortedness/stability use the reference key computed on '
-        'role and target without alignments. Non-trivial: >=2 nodes and >=3 branches somewhere.')
+        'role and target without alignments; two fifths of the cases use differently spelled roles with '
+        'equal keys (:op/:op0/:op00, :op1/:op01, :snt2/:snt002). Non-trivial: >=2 nodes and >=3 branches somewhere.')
 ANCHORS = ['penman.layout:reconfigure', 'penman.layout:rearrange', 'penman.layout:_rearrange',
            'penman.model:Model.alphanumeric_order', 'penman.model:Model.canonical_order',
            'penman.model:Model.original_order', 'penman.model:Model.random_order']
